@@ -6,6 +6,7 @@ import (
 	"net/http"
 	"net/http/httptest"
 	"strings"
+	"time"
 
 	"github.com/coder/websocket"
 	"github.com/grpc-ecosystem/grpc-gateway/v2/runtime"
@@ -33,6 +34,13 @@ func (r *fakeRelay) box(id string, create bool) *relayBox {
 }
 
 func (r *fakeRelay) wsReceive(w http.ResponseWriter, req *http.Request) {
+	r.mu.Lock()
+	d := r.wsRecvDelay
+	r.wsRecvDelay = 0 // only the first receive dial is slow
+	r.mu.Unlock()
+	if d > 0 {
+		time.Sleep(d)
+	}
 	c, err := websocket.Accept(w, req, nil)
 	if err != nil {
 		return
@@ -76,6 +84,11 @@ func (r *fakeRelay) wsSend(w http.ResponseWriter, req *http.Request) {
 		return
 	}
 	defer func() { _ = c.CloseNow() }()
+	r.mu.Lock()
+	r.wsSendDials++
+	r.wsSendOpen++
+	r.mu.Unlock()
+	defer func() { r.mu.Lock(); r.wsSendOpen--; r.mu.Unlock() }()
 	c.SetReadLimit(-1)
 	for {
 		_, b, err := c.Read(req.Context())
